@@ -220,6 +220,17 @@ theorem inv2_of_reach (hm : o.managed = false) (hdet : o.detectConflicts = true)
   | commit r id hmax ih => exact commit_inv2 hm hdet (inv_of_reach hm r) ih id
   | flush _ fid ih => exact ih.same rfl (Nat.le_refl _) ih.wr
   | tick _ now' hn ih => exact ih.same rfl (Nat.le_refl _) ih.wr
+  | @reopen hist d r fid hnext ih =>
+    -- nothing of committedTxns survives, and nothing needs to: every committed version is at or
+    -- below the new read watermark (= MaxVersion = nextTs - 1)
+    have h := inv_of_reach hm r
+    obtain ⟨_, _, ft, _, fr, _, _⟩ := closeOpen_fields ({ d with lsm := d.lsm.flush fid } : Db)
+    refine ⟨(by rw [ft]; intro t ht; cases ht), ?_⟩
+    intro x hx hlt
+    rw [fr] at hlt
+    have := h.l.histLt x hx
+    have hlt' : ({ d with lsm := d.lsm.flush fid } : Db).closeOpen.nextTs - 1 < x.ver := hlt
+    omega
   | compact _ cd dts hd hi htop hvc hdp hs hcut ih => exact ih.same rfl (Nat.le_refl _) ih.wr
 
 end DbL
